@@ -56,6 +56,10 @@ class Gen:
             return [op, self.vexprh(env, depth + 1), right]
         if c == 9:
             return ["ite", self.cond(env, depth + 1), self.vexprh(env, depth + 1), self.vexprh(env, depth + 1)]
+        if c == 10 and env.get("calls_ok") and self.calls < 2 and rs.below(2):
+            # a helper whose for-loop ends in return (first set bit wins), with a fall-through return after the loop
+            self.calls += 1
+            return ["prio", rs.choice(["d", "u"]), self.vatom(env), self.vatom(env)]
         if c == 10 and env.get("calls_ok") and self.calls < 2:
             self.calls += 1
             return ["pick", self.cond(env, depth + 1), self.vatom(env), self.vatom(env), rs.below(2)]
@@ -407,6 +411,8 @@ def r_v(e):
         return f"({r_v(e[2])} if {r_c(e[1])} else {r_v(e[3])})"
     if k == "pick":
         return f"pick({r_c(e[1])}, {r_v(e[2])}, y={r_v(e[3])})" if e[4] else f"pick({r_c(e[1])}, {r_v(e[2])}, {r_v(e[3])})"
+    if k == "prio":
+        return f"prio({r_name(e[1])}, {r_v(e[2])}, {r_v(e[3])})"
     if k == "sl2":
         return f"{r_name(e[1])}[{e[2] + 1}:{e[2]}].unsigned.resize(4)"
     if k == "raw2":
@@ -557,6 +563,12 @@ def render(prog, attrs=None):
         "    else:",
         "        if x == y:",
         "            return y + 1",
+        "    return y",
+        "",
+        "def prio(vec, x, y):",
+        "    for i in range(3):",
+        "        if vec[i]:",
+        "            return x + i",
         "    return y",
         "",
         "def cmpsel(c, x, y):",
